@@ -52,6 +52,23 @@ Section Statements.
   Theorem C39_checker_sound : forall stream,
     stream_ok g t shown stream = true -> stream_holds g shown stream.
   Proof. exact (checker_sound_thm g W shown). Qed.
+
+  (** The adapters of lib/src/graph.rs that `jj log` puts on top of the stream, judged on
+      their real output: after TopoGroupedGraph the nodes are the same (with the same edges)
+      and a shown commit still comes before each of its shown ancestors; reverse_graph lists
+      the nodes in reverse order and turns every edge between two nodes around. *)
+  Theorem C39_adapters : forall (stream topo rv : stream_t),
+    stream_holds g shown stream ->
+    (topo_ok stream topo = true ->
+       (forall nd, In nd topo -> In nd stream) /\ NoDup (map fst topo) /\
+       (forall x, In x (map fst stream) -> In x (map fst topo)) /\
+       forall x y, In x shown -> In y shown -> x < length g -> anc g y x -> y <> x ->
+                   posn (map fst topo) x < posn (map fst topo) y) /\
+    (reverse_ok stream rv = true ->
+       map fst rv = rev (map fst stream) /\
+       forall x y k, (In (x, y, k) (edge_triples stream) /\ In y (map fst stream)) <->
+                     In (y, x, k) (edge_triples rv)).
+  Proof. exact (adapters_thm g W shown). Qed.
 End Statements.
 
 Check C39_ancestry_implied : forall (g : graph), wf g -> forall (shown : list nat) (skip : bool)
@@ -74,3 +91,4 @@ Print Assumptions C39_order.
 Print Assumptions C39_indirect.
 Print Assumptions C39_ancestry_implied.
 Print Assumptions C39_checker_sound.
+Print Assumptions C39_adapters.
